@@ -7,6 +7,7 @@ import (
 	"os"
 	"strconv"
 	"strings"
+	"sync"
 	"testing"
 
 	"pgregory.net/rapid"
@@ -63,6 +64,11 @@ func posClass(pos int) string {
 		return "beyond-end"
 	}
 	return "in-range"
+}
+
+type c17Conc struct {
+	Workers   int `json:"workers"`
+	PerWorker int `json:"per_worker"`
 }
 
 type c17Seq struct {
@@ -269,6 +275,72 @@ func TestC17(t *testing.T) {
 				return nil
 			})
 		})
+
+	// Overlapping callers in one process (the poller, API handlers and several nodes of one process all expand baked
+	// ranges): the function has no business sharing mutable state between calls. 8 goroutines ask for disjoint and
+	// overlapping index sets at the same time; every answer is compared with the reference computed beforehand.
+	t.Run("concurrent-callers", func(t *testing.T) {
+		if replaying() {
+			var rp c17Conc
+			if !replayFor(t, "concurrent-callers", &rp) {
+				return
+			}
+		}
+		si, _ := shard()
+		const workers = 8
+		perWorker := pick(1500, 20000)
+		idx := make([][]uint64, workers)
+		want := make([][][32]byte, workers)
+		for w := 0; w < workers; w++ {
+			for k := 0; k < perWorker; k++ {
+				// deterministic, shard-dependent index sets; every 4th index is shared by all workers
+				v := uint64(52694 + (k*7919+w*104729+si*15485863)%141162)
+				if k%4 == 0 {
+					v = uint64(52694 + (k*31+si)%141162)
+				}
+				if k%97 == 0 {
+					v = uint64(k) << uint(w*7)
+				}
+				idx[w] = append(idx[w], v)
+				want[w] = append(want[w], oracle.RefSigningRoot(v))
+			}
+		}
+		var mu sync.Mutex
+		var bad []string
+		var wg sync.WaitGroup
+		for w := 0; w < workers; w++ {
+			wg.Add(1)
+			go func(w int) {
+				defer wg.Done()
+				defer func() {
+					if r := recover(); r != nil {
+						mu.Lock()
+						bad = append(bad, fmt.Sprintf("worker %d panicked: %v", w, r))
+						mu.Unlock()
+					}
+				}()
+				for k, v := range idx[w] {
+					got, err := wc_rotation.GetSigningRoot(v)
+					if err != nil || got != want[w][k] {
+						mu.Lock()
+						if len(bad) < 5 {
+							bad = append(bad, fmt.Sprintf("validator %d (worker %d, call %d): got %x err=%v, spec reference %x", v, w, k, got, err, want[w][k]))
+						}
+						mu.Unlock()
+						return
+					}
+				}
+			}(w)
+		}
+		wg.Wait()
+		st.EvalN(workers * perWorker)
+		if len(bad) > 0 {
+			report(t, st, "concurrent-callers", violf("wrong-signing-root-under-concurrency", "%d goroutines calling GetSigningRoot at the same time: %s", workers, strings.Join(bad, "; ")), c17Conc{Workers: workers, PerWorker: perWorker})
+			return
+		}
+		st.Class("concurrent-callers")
+		st.NonTrivial(fmt.Sprintf("conc:%d:%d:%d", workers, perWorker, si))
+	})
 
 	// Ranges through TasksToMessages, the entry point used by signer, store and reconstruction.
 	rapidProp(t, st, "ranges", perShard(pick(3000, 100000)), 3,
